@@ -319,6 +319,13 @@ class Obj:
         return f"<{self.cls.name} {self.label or '#%d' % self.uid}>"
 
 
+class ConstObj(Obj):
+    """An immutable singleton instance (enum member): shared by every copy of a world, identity is preserved."""
+
+    def __deepcopy__(self, memo):
+        return self
+
+
 class ListV:
     def __init__(self, items=None):
         self.items = list(items or [])
